@@ -27,7 +27,7 @@ type tokenKey struct{}
 // counting hooks
 var (
 	timeCalls, strCalls, fldCalls int
-	lastTimeTok, lastStrTok, lastFldTok any
+	lastTimeCtx, lastStrCtx, lastFldCtx context.Context
 	hookSeq                             int
 )
 
@@ -35,19 +35,19 @@ var baseTime = time.Date(2031, 5, 6, 7, 8, 9, 0, time.UTC)
 
 func hookTime(ctx context.Context) time.Time {
 	timeCalls++
-	lastTimeTok = ctx.Value(tokenKey{})
+	lastTimeCtx = ctx
 	hookSeq++
 	return baseTime.Add(time.Duration(hookSeq) * time.Second)
 }
 func hookStr(ctx context.Context) string {
 	strCalls++
-	lastStrTok = ctx.Value(tokenKey{})
+	lastStrCtx = ctx
 	hookSeq++
 	return fmt.Sprintf("cs%d", hookSeq)
 }
 func hookFld(ctx context.Context) []log.Field {
 	fldCalls++
-	lastFldTok = ctx.Value(tokenKey{})
+	lastFldCtx = ctx
 	hookSeq++
 	return []log.Field{log.String("cf", fmt.Sprintf("v%d", hookSeq)), log.Int("cn", hookSeq)}
 }
@@ -77,6 +77,7 @@ type op struct {
 	Layout string
 	Entry  string
 	Level  int // index into levels (Record)
+	Ctx    int // 0 valued Background, 1 derived (WithCancel), 2 valued TODO, 3 nil
 }
 
 func (o op) String() string {
@@ -87,9 +88,9 @@ func (o op) String() string {
 		return fmt.Sprintf("config(%s,%q,%s)", o.Logger, ranges[o.Range].s, o.Layout)
 	default:
 		if o.Entry == "Record" {
-			return "Record@" + levels[o.Level].name
+			return fmt.Sprintf("Record@%s/ctx%d", levels[o.Level].name, o.Ctx)
 		}
-		return o.Entry
+		return fmt.Sprintf("%s/ctx%d", o.Entry, o.Ctx)
 	}
 }
 
@@ -107,7 +108,7 @@ func genOps(t *rapid.T) []op {
 			ops = append(ops, op{K: "config", Logger: rapid.SampledFrom([]string{"sync", "async", "builtin"}).Draw(t, "logger"),
 				Range: rapid.IntRange(0, len(ranges)-1).Draw(t, "range"), Layout: rapid.SampledFrom([]string{"TextLayout", "JSONLayout"}).Draw(t, "layout")})
 		default:
-			o := op{K: "call", Entry: rapid.SampledFrom(entries).Draw(t, "entry")}
+			o := op{K: "call", Entry: rapid.SampledFrom(entries).Draw(t, "entry"), Ctx: rapid.SampledFrom([]int{0, 0, 1, 2, 3}).Draw(t, "ctx")}
 			if o.Entry == "Record" {
 				o.Level = rapid.IntRange(0, len(levels)-1).Draw(t, "level")
 			} else {
@@ -197,8 +198,20 @@ func TestC10_Hooks(t *testing.T) {
 					t.Fatalf("VERIF-INCONCLUSIVE C10: Refresh failed: %v", err)
 				}
 			default:
-				token := fmt.Sprintf("tok-%d", i)
-				ctx := context.WithValue(context.Background(), tokenKey{}, token)
+				// arbitrary contexts: valued, derived, TODO, and nil (legal to pass, the hooks see what the caller passed)
+				var ctx context.Context
+				switch o.Ctx {
+				case 0:
+					ctx = context.WithValue(context.Background(), tokenKey{}, fmt.Sprintf("tok-%d", i))
+				case 1:
+					c2, cancel := context.WithCancel(context.WithValue(context.TODO(), tokenKey{}, i))
+					defer cancel()
+					ctx = c2
+				case 2:
+					ctx = context.WithValue(context.TODO(), tokenKey{}, i)
+				default:
+					ctx = nil
+				}
 				id := int64(i + 1)
 				genCalls := 0
 				fn := func() []log.Field { genCalls++; return []log.Field{log.Int("id", id)} }
@@ -271,7 +284,7 @@ func TestC10_Hooks(t *testing.T) {
 				if timeCalls != want[0] || strCalls != want[1] || fldCalls != want[2] {
 					t.Fatalf("VERIF-VIOLATION C10: hook invocations for one emitted event: time %d string %d fields %d, expected %d %d %d\n%s", timeCalls-t0, strCalls-s0, fldCalls-f0, want[0]-t0, want[1]-s0, want[2]-f0, where)
 				}
-				if set[0] && lastTimeTok != token || set[1] && lastStrTok != token || set[2] && lastFldTok != token {
+				if set[0] && lastTimeCtx != ctx || set[1] && lastStrCtx != ctx || set[2] && lastFldCtx != ctx {
 					t.Fatalf("VERIF-VIOLATION C10: a hook was not called with the caller's context\n%s", where)
 				}
 				if lazy && genCalls != 1 {
